@@ -421,6 +421,11 @@ func (m *MsgBridgeCallClaim) ValidateBasic() (err error) {
 			return sdkerrors.ErrInvalidAddress.Wrapf("invalid token contract: %s", err)
 		}
 	}
+	for _, amount := range m.Amounts {
+		if amount.IsNil() || amount.IsNegative() {
+			return sdkerrors.ErrInvalidRequest.Wrap("invalid amount")
+		}
+	}
 	return m.validateBasic()
 }
 
